@@ -283,8 +283,23 @@ class Tomographer(Client):
         if c.n_modes > 12 or csize(w, cid)[0] > 40 or csize(w, cid)[1] > 5:
             return None
         k = r.choice(["gate1", "gate1", "gate1", "rot", "rot", "ent", "ent",
-                      "anc", "anc", "prim", "lossy", "rewrite"])
+                      "anc", "anc", "prim", "lossy", "rewrite", "swap",
+                      "swap"])
         q = r.randrange(nq)
+        if k == "swap":
+            # rail / qubit permutations on the visible modes; two in a row are
+            # what a device-side compress_mode_swaps merges
+            vis = 2 * nq
+            ms = r.sample(range(vis), r.randint(2, min(vis, 4)))
+            tg = list(ms)
+            r.shuffle(tg)
+            sw = {"op": "mode_swaps", "c": cid,
+                  "swaps": [[a, b] for a, b in zip(ms, tg)]}
+            if r.random() < 0.5:
+                ms2 = r.sample(range(vis), 2)
+                self.pending = [{"op": "mode_swaps", "c": cid,
+                                 "swaps": [[ms2[0], ms2[1]], [ms2[1], ms2[0]]]}]
+            return sw
         if k == "rewrite":
             # in-place rewrites that keep the mode numbering (unpack_groups
             # turns private ancillas into ordinary heralded modes, after which
@@ -451,6 +466,12 @@ class TomoMonitor(Monitor):
             return [self.v({"kind": "process_raised", "exc": out["exc"]},
                            f"process() raised {out['exc']}: {out.get('msg')}")]
         rho = w.extra.get("last_result")
+        # what a later failed attempt must leave in place, whether or not the
+        # checks below apply to this state
+        prev = self.last_rho.get(op["t"])
+        self.last_rho[op["t"]] = np.array(rho)
+        bd_prev_ok = meta.get("rho_checked_last", False)
+        meta["rho_checked_last"] = False
         handed = meta.get("handed", [])
         # (1) protocol
         if len(handed) != 3 ** n:
@@ -530,13 +551,12 @@ class TomoMonitor(Monitor):
             return [self.v({"kind": "fidelity_not_one"}, f"fidelity {f}")]
         # (3) identical under every permutation: compare with the previous
         # process() of the same object if the base circuit did not change
-        prev = self.last_rho.get(op["t"])
-        self.last_rho[op["t"]] = np.array(rho)
+        meta["rho_checked_last"] = True
         bd = meta.get("base_digest")
         from .engine import obs_digest  # noqa: PLC0415
         nd = obs_digest(base_obs)
         meta["base_digest"] = nd
-        if prev is not None and bd == nd:
+        if prev is not None and bd == nd and bd_prev_ok:
             w.probe("same_state_other_order")
             if float(np.max(np.abs(prev - rho))) > 1e-12:
                 return [self.v({"kind": "rho_depends_on_order"},
